@@ -160,6 +160,10 @@ func PerformJoin(
 	joinEB := verImpl.NewEventBuilderFromProtoEvent(&joinEvent)
 
 	_ = json.Unmarshal(joinEvent.Content, &input.Content)
+	if input.Content == nil {
+		// "content": null in the make_join response
+		input.Content = map[string]interface{}{}
+	}
 	input.Content["membership"] = spec.Join
 	if err = joinEB.SetContent(input.Content); err != nil {
 		return nil, &FederationError{
